@@ -34,6 +34,8 @@ def model(W: int, mf: int, history: List[Dict[str, Any]], startup_deaths: Iterab
             alive[i] = False
         for s in ev.get("sig", ()):
             pending.append("RA" if s in ("HUP", "FC") else "SD")
+        if ev.get("burst"):
+            pending.append("RA")      # any number of reload-all requests handled in one tick restarts every worker once
         restarted: List[int] = []
         q, pending = pending, []
         saw_ra = False
@@ -222,6 +224,7 @@ def histories(max_ticks: int = 40) -> Any:
             "sig": st.one_of(st.just([]), st.just([]), st.just([]), st.lists(st.sampled_from(["HUP", "FC", "HUP", "FC", "INT", "TERM"]), min_size=1, max_size=3)),
             # workers that are gone by the time the manager signals them although its is_alive() just said yes
             "vanish": st.one_of(st.just([]), st.just([]), st.just([]), st.lists(st.integers(0, W - 1), unique=True, max_size=W).map(sorted)),
+            "burst": st.sampled_from([0] * 12 + [150, 450]),     # that many file-change events arrive within this tick
             "mid": st.one_of(st.just([]), st.just([]), st.just([]),
                              st.lists(st.tuples(st.integers(0, 14), st.sampled_from(["HUP", "FC", "INT", "TERM", "HUP"])).map(list), min_size=1, max_size=2)),
         })
